@@ -285,11 +285,11 @@ theorem failed_commit_wal {cfg : Cfg} {T : List Tx} {fs : FS} {m : Mem} {cs : Li
     intro mm hmm g hgj hgd hgw
     have hfields : mm.pm = m.pm ∧ mm.idLen = m.idLen ∧ mm.idStart = m.idStart ∧ mm.exts = m.exts ∧ mm.runs = m.runs ∧
         mm.segs = m.segs ∧ mm.proot = m.proot ∧ mm.ptop = m.ptop ∧ mm.epoch = m.epoch ∧ mm.nextTxid = m.nextTxid + 1 ∧
-        mm.walOpen = m.walOpen := by
-      rcases hmm with rfl | rfl <;> exact ⟨rfl, rfl, rfl, rfl, rfl, rfl, rfl, rfl, rfl, rfl, rfl⟩
-    obtain ⟨f1, f2, f3, f4, f5, f6, f7, f8, f9, f10, f11⟩ := hfields
+        mm.walOpen = m.walOpen ∧ mm.bm = m.bm := by
+      rcases hmm with rfl | rfl <;> exact ⟨rfl, rfl, rfl, rfl, rfl, rfl, rfl, rfl, rfl, rfl, rfl, rfl⟩
+    obtain ⟨f1, f2, f3, f4, f5, f6, f7, f8, f9, f10, f11, f12⟩ := hfields
     exact { pj := hgj, wal := hgw, log := h.log, pager := by rw [hgd]; exact h.pager, store := by rw [hgd]; exact h.store,
-            full := by rw [hgd]; exact h.full, mpm := by rw [f1, hgd]; exact h.mpm, mlen := by rw [f2]; exact h.mlen,
+            full := by rw [hgd]; exact h.full, mpm := by rw [f1, hgd]; exact h.mpm, mbm := by rw [f12, hgd]; exact h.mbm, mlen := by rw [f2]; exact h.mlen,
             mstart := by rw [f3, hgd]; exact h.mstart, mexts := by rw [f4]; exact h.mexts, mruns := by rw [f5]; exact h.mruns,
             msegs := by rw [f6, hgd]; exact h.msegs, mroot := by rw [f7]; exact h.mroot, mptop := by rw [f8]; exact h.mptop,
             mepoch := by rw [f9]; exact h.mepoch, mtxid := by rw [f10]; have := h.mtxid; omega,
